@@ -144,7 +144,9 @@ func (t *Tree) Prove() (merkleRoot []byte, proofSet [][]byte, proofIndex uint64,
 	if t.head == nil || len(t.proofSet) == 0 {
 		return t.Root(), nil, t.proofIndex, t.currentIndex
 	}
-	proofSet = t.proofSet
+	// the proof handed out is a copy: appending to t.proofSet itself would write the siblings added below into the
+	// spare capacity of the tree's own slice, where later pushes overwrite them
+	proofSet = append(make([][]byte, 0, len(t.proofSet)+8), t.proofSet...)
 
 	// The set of subtrees must now be collapsed into a single root. The proof
 	// set already contains all of the elements that are members of a complete
